@@ -158,14 +158,15 @@ class FunctionTransformer(ast.NodeTransformer):
         self.uid = 0
 
     # ---------------------------------------------------------------- entry
-    def transform(self, fn: ast.FunctionDef) -> ast.FunctionDef:
+    def transform(self, fn: ast.FunctionDef, keep_decorators: bool = False) -> ast.FunctionDef:
         fn = copy.deepcopy(fn)
         fn.body = self._block(fn.body)
         ghost = [ast.Assign(targets=[_name(k, ast.Store())], value=_parse_expr(v)) for k, v in self.ghost.items()]
         # keep a leading docstring first
         fn.body = ghost + fn.body
-        fn.decorator_list = [d for d in fn.decorator_list
-                             if ast.unparse(d) in ("staticmethod", "classmethod", "property")]
+        if not keep_decorators:
+            fn.decorator_list = [d for d in fn.decorator_list
+                                 if ast.unparse(d) in ("staticmethod", "classmethod", "property")]
         ast.fix_missing_locations(fn)
         return fn
 
